@@ -400,6 +400,65 @@ def compare_elemwise(it, rt, fill_fn, sp_ops, np_ops):
 # leg C, programs: in-place / out= forms and short sequences; every live array is compared with its NumPy twin
 # ---------------------------------------------------------------------------------------------------
 
+def leg_c_out_dtype(ctx, rng, n):
+    """ufunc(x, y, out=o, dtype=t) with t DIFFERENT from o.dtype (and casting= given or not): afterwards `o` has its own dtype and
+    NumPy's values (the loop runs in t, the result is cast into o), or both sides raise; the other operands are untouched"""
+    import sparse
+
+    pairs = [("float32", "float64"), ("float64", "float32"), ("int8", "int64"), ("int64", "int8"), ("int32", "float64"), ("float64", "complex128"),
+             ("complex128", "float64"), ("int16", "int32"), ("uint8", "int64")]
+    ufs = [np.add, np.multiply, np.subtract, np.maximum]
+    for it in range(n):
+        shp = gen.shape(rng, 1, 3, extents=[1, 2, 3, 4], max_size=40)
+        ot, lt = pairs[int(rng.integers(len(pairs)))]
+        uf = ufs[int(rng.integers(len(ufs)))]
+        if np.dtype(lt).kind == "c" and uf is np.maximum:
+            uf = np.add
+        da = (gen.dense(rng, shp, 0, lo=0 if np.dtype(ot).kind == "u" else -3, hi=3) * 25).astype(ot)  # 50 + 75 leaves int8
+        db = (gen.dense(rng, shp, 0, lo=0 if np.dtype(ot).kind == "u" else -3, hi=3) * 25).astype(ot)
+        fmt = str(rng.choice(["coo", "gcxs", "dok"]))
+        kw = {"dtype": np.dtype(lt)}
+        if rng.random() < 0.4:
+            kw["casting"] = str(rng.choice(["same_kind", "unsafe", "safe"]))
+        mk = lambda d: gen.to_format(rng, d, fmt, 0)[0]  # noqa: E731
+        a, b, o = mk(da), mk(db), mk(np.zeros(shp, dtype=ot))
+        do = np.zeros(shp, dtype=ot)
+        case = {"ufunc": uf.__name__, "format": fmt, "out_dtype": ot, "dtype": lt, "casting": kw.get("casting"), "a": da.tolist(), "b": db.tolist()}
+        ctx.case(f"C:out+dtype:{uf.__name__}", case, nontrivial=True)
+        with warnings.catch_warnings(), np.errstate(all="ignore"):
+            warnings.simplefilter("ignore")
+            try:
+                uf(da, db, out=do, **kw)
+                nerr = None
+            except Exception as e:  # noqa: BLE001
+                nerr = e
+            try:
+                r = uf(a, b, out=o, **kw)
+                serr = None
+            except Exception as e:  # noqa: BLE001
+                serr = e
+        msg = None
+        if nerr is not None:
+            if serr is None:
+                msg = f"NumPy raises {type(nerr).__name__} ({str(nerr)[:80]}) but the call returned"
+            elif not isinstance(serr, (TypeError, ValueError)):
+                msg = f"NumPy raises {type(nerr).__name__}; the call raised {type(serr).__name__}: {str(serr)[:100]}"
+        elif serr is not None:
+            msg = f"raised {type(serr).__name__}: {str(serr)[:120]} (NumPy stores {do.tolist()!r:.80} in out)"
+        else:
+            got = o.todense()
+            if r is not o:
+                msg = "the call did not return the out= array"
+            elif got.dtype != do.dtype:
+                msg = f"out= array changed its dtype to {got.dtype} (it was {do.dtype}; NumPy keeps it)"
+            elif not oracle.same_values(got, do):
+                msg = f"out= holds {got.tolist()!r:.120}, NumPy's out holds {do.tolist()!r:.120}"
+            elif not (np.array_equal(a.todense(), da) and np.array_equal(b.todense(), db)):
+                msg = "an input operand changed"
+        if msg:
+            ctx.fail("C", f"out+dtype:{uf.__name__}", case, msg, finding=findings.classify(PID, "out+dtype", case, msg))
+
+
 def leg_c_programs(ctx, rng, n):
     import sparse
 
@@ -479,6 +538,7 @@ def run(ctx):
     leg_a(ctx, rng, 700 if ctx.quick else 7000)
     leg_c(ctx, rng, 700 if ctx.quick else 8000)
     leg_c_programs(ctx, gen.rng_for(ctx.seed, PID + 'programs'), 250 if ctx.quick else 3000)
+    leg_c_out_dtype(ctx, gen.rng_for(ctx.seed, PID + 'outdtype'), 120 if ctx.quick else 2000)
     leg_c_broadcast(ctx, gen.rng_for(ctx.seed, PID + ":broadcast_to"), 250 if ctx.quick else 4000)
     ctx.cov["rule"] = ("T1: all shape pairs (<=3 axes, extents 0..3) x is_result through the generated rule; leg A: broadcast_to (admissible targets, incompatible "
                        "extents, operands with more axes than the target) and 20 scalar functions "
